@@ -37,6 +37,8 @@ pub fn generate(prop: &str, _run: u64, t: &mut Tape) -> Scenario {
             }
         }
         "C06" => gen2::gen_timed(t, true),
+        "C10" => gen2::gen_loopfam(t, gen2::LoopOpts { side: _run % 3 == 0, nested: true }),
+        "C11" => gen2::gen_loopfam(t, gen2::LoopOpts { side: true, nested: false }),
         "C12" => gen2::gen_cwin(t),
         "C13" => gen2::gen_evwin(t),
         "C14" => gen2::gen_ptwin(t),
